@@ -190,7 +190,7 @@ STATS = [
 
 def run(ctx: Ctx):
   st = {}
-  for r in (r1, r2, r3, r4, r5, r6, r7, r9, r10, r12, r14, r15, r16, r17, r18, r19, r20, r21, r22, r23):
+  for r in (r1, r2, r3, r4, r5, r6, r7, r9, r10, r12, r14, r15, r16, r17, r18, r19, r20, r21, r22, r23, r24):
     ctx.guard(r, st)
   from mlmverif.props import c11
   from mlmverif.props._agg import model as aggmodel
@@ -1547,12 +1547,51 @@ def r23(ctx: Ctx, m=None):
   ctx.floor(rule, 1, n)
 
 
+def r24(ctx: Ctx, m=None):
+  rule = 'R-C07-24'
+  ctx.rule(rule, '"for all ... k including k larger than the number of classes": a top-k selection in the signal functions is total'
+           ' in k. `np.argsort(x)[-k:]` is (a slice never fails: k > n selects everything, so every valid label is a hit, as'
+           ' the definition says); `np.argpartition(x, <k from a parameter>)` is NOT — it raises "kth out of bounds" for'
+           ' k > n. A partition whose kth comes from a parameter must be bounded (min(k, <size>) / np.clip) in the same'
+           ' expression or through a local')
+  n = 0
+  for modname in ('signals.topk_accuracy',):
+    mi = ctx.repo.module(modname)
+    for name, fi in mi.functions.items():
+      ps = set(fi.params())
+      env = {x.targets[0].id: x.value for x in walk_no_nested(fi.node)
+             if isinstance(x, ast.Assign) and len(x.targets) == 1 and isinstance(x.targets[0], ast.Name)}
+      for c in ast.walk(fi.node):
+        if not (isinstance(c, ast.Call) and unparse(c.func) in ('np.argsort', 'np.argpartition', 'np.partition', 'np.sort')):
+          continue
+        n += 1
+        what = f'{name}: `{unparse(c)[:50]}` is defined for every k'
+        if unparse(c.func) in ('np.argpartition', 'np.partition') and len(c.args) >= 2:
+          kth = c.args[1]
+          if isinstance(kth, ast.Name) and kth.id in env:
+            kth = env[kth.id]
+          from_param = any(isinstance(y, ast.Name) and y.id in ps for y in ast.walk(kth))
+          bounded = any(isinstance(y, ast.Call) and unparse(y.func) in ('min', 'np.minimum', 'np.clip') for y in ast.walk(kth))
+          if from_param and not bounded:
+            ctx.fail(rule, fi, what,
+                     f'`{unparse(c)[:70]}` partitions at a position taken from a parameter without bounding it: for k larger than the'
+                     ' number of scores numpy raises "kth out of bounds" where the definition (and the sort-and-slice form)'
+                     ' counts every valid label as a hit', node=c)
+            continue
+        ctx.ok(rule, fi, what, c)
+  ctx.floor(rule, 1, n)
+
+
 from mlmverif.selfcheck import B, OK  # noqa: E402
 
 _C = 'aggregates/classification.py'
 _T = 'aggregates/retrieval.py'
 _MC = 'metrics/classification.py'
 VARIANTS = [
+    B('topk-by-unbounded-partition', 'signals/topk_accuracy.py',
+      "  topk_predictions = np.argsort(weighted_pred)[-k:]", "  topk_predictions = np.argpartition(weighted_pred, -k)[-k:]", 'R-C07-24'),
+    OK('topk-by-bounded-partition', 'signals/topk_accuracy.py',
+       "  topk_predictions = np.argsort(weighted_pred)[-k:]", "  kth = min(k, len(weighted_pred))\n  topk_predictions = np.argsort(weighted_pred)[-kth:]"),
     OK('mean-of-a-batch-through-a-local', 'aggregates/rolling_stats.py',
        "        _mean=np.nanmean(batch, axis=0),", "        _mean=np.nanmean(np.asarray(batch), axis=0),", count=2),
     B('categorical-cross-entropy-clips-its-probabilities', 'signals/cross_entropy.py',
